@@ -7,7 +7,7 @@ SPEC = {
     "agrees": "C07.agrees",
     "in_domain": "C07.in_domain",
     "model_prop": "fun k => implb (C07.in_domain k) (C07.model_prop k)",
-    "n_quick": 90,
+    "n_quick": 70,
     "n_thorough": 3000,
     "shard": 60,
     "engine": "coq+implrun (forced schedules on the real code, trace validation in Coq)",
